@@ -153,7 +153,7 @@ func runMutants(p *rules.Prop, base rt.Result, kf rt.KnownFile) []mutantResult {
 		}
 	}
 	out := make([]mutantResult, len(p.Mutants))
-	sem := make(chan struct{}, 8)
+	sem := make(chan struct{}, 4)
 	var wg sync.WaitGroup
 	for i, m := range p.Mutants {
 		wg.Add(1)
